@@ -218,6 +218,8 @@ IDENTITY_CASES = [
     ("y ~ 0 + rec(a, s='u') + rec(a, s='v')", 2), ("y ~ 0 + rec(a, s='u') + rec(a, s=\"u\")", 2), ("y ~ 0 + h(a) + h( a )", 1),
     ("y ~ 0 + rec(a, k=2, s='u') + rec(a, k=2, s='u')", 1), ("y ~ 0 + rec(a + b) + rec(a+b)", 1),
     ("y ~ 0 + rec(a, k=1):rec(a, k=2)", 1), ("y ~ 0 + rec(a, k=9007199254740993) + rec(a, k=9007199254740992)", 2),
+    ("y ~ 0 + rec(h(a)) + rec(b)", 2), ("y ~ 0 + rec(b) + rec(h(a))", 2), ("y ~ 0 + rec(a, k=h(b)) + rec(a, k=b)", 2), ("y ~ 0 + rec(a + 1) + rec(h(a))", 2),
+    ("y ~ 0 + rec(a, k=2) + rec(a, k=h(b))", 2), ("y ~ 0 + rec(h(a)) + rec(h(a))", 1), ("y ~ 0 + rec(h(a) + 1) + rec(a * 2 + 1)", 2),
     ("y ~ 0 + rec(a, k=+b) + rec(a, k=b)", 2), ("y ~ 0 + rec(a, s='u v') + rec(a, s='u  v')", 2), ("y ~ 0 + rec(a, s='u\tv') + rec(a, s='u v')", 2), ("y ~ 0 + {a + 1} + I(a + 1)", 1), ("y ~ 0 + rec(a, k=h(b)) + rec(a, k=h(c))", 2),
 ]
 
@@ -236,7 +238,8 @@ def PROOFS():
     from ..contracts import call_resolver_c, parser_c, resolver_c
     R = "formulae.terms.call_resolver."
     return [("vf.contracts.call_resolver_c", [R + "LazyValue.eval"] + [R + c for c in (
-        "LazyValue.__eq__", "LazyCall.__eq__", "LazyOperator.__eq__", "LazyVariable.__eq__")]),
+        "LazyValue.__eq__", "LazyCall.__eq__", "LazyOperator.__eq__", "LazyVariable.__eq__",
+        "LazyValue.__eq__#other", "LazyCall.__eq__#other", "LazyOperator.__eq__#other", "LazyVariable.__eq__#other")]),
             # literal scanning: the literal of a NUMBER / STRING / PYTHON_LITERAL token is Python's reading of exactly its text
             ("vf.contracts.scanner_c", ["formulae.scanner.Scanner." + f for f in ("__init__", "add_token", "floatnum", "number", "identifier", "char")]),
             ("vf.contracts.variable_c", ["formulae.terms.call.Call.__eq__", "formulae.terms.call.Call.__hash__"]),
